@@ -40,7 +40,7 @@ class Prop:
         # 1. create -> parse round trip
         ops, meta = [], []
         subsets = [s for k in range(1, 8) for s in itertools.combinations(FIELDS, k)]
-        reps = 12 if ctx.tier == 'quick' else 120
+        reps = 12 if ctx.tier == 'quick' else 800
         for sub in subsets:
             for _ in range(reps):
                 order = list(sub)
